@@ -22,6 +22,7 @@ TPL3 = [["page", 0, False], ["page", 1, False], ["page", 2, False], ["page", 3, 
 def levels(tier):
     if tier == "quick":
         return [
+            {"name": "codec", "mode": "codec", "digits": [1, 3], "prefix_indices": [0, 9, 10, 11, 63, 64, 100]},
             {"name": "subset", "n": 0, "prelude": TPL, "subset": 2, "alphabet": ["links"], "defaults": ["never"], "pool": POOL5, "ks": [1, 2]},
             {"name": "empty-prefix", "n": 0, "prelude": TPL3, "subset": 2, "alphabet": ["links"], "defaults": ["never"], "pool": POOL6, "ks": [1, 2],
              "orders": 3},
@@ -44,6 +45,9 @@ def levels(tier):
 
 def harness(E):
     P = E.params
+    if P.get("mode") == "codec":
+        from harness.C09 import codec
+        return codec(E, P)
     sel = {}
     if P.get("requery"):
         # paginate, edit the prefixes, paginate again with the same parameters: the second answer must follow the edit
